@@ -590,6 +590,7 @@ GET_MOVES = {
 }
 
 P = ('C01', 'C02', 'C05', 'C13')
+OWN = ('C01', 'C13')   # exact target sets are C01/C13's business; for C02/C05 they are support
 A_ENS = lambda pred: ['appended(old(moves)@, final(moves)@)',
     'forall|i: int| old(moves)@.len() <= i < final(moves)@.len() ==> ' + pred % '#[trigger] final(moves)@[i]',
     'forall|t: Point| #[trigger] ' + pred % 't' + ' ==> has_from(final(moves)@, old(moves)@.len() as int, t)',
@@ -605,14 +606,14 @@ def build(g):
     BK = dict(RK); BK['ensures'] = [e.replace('rook_dirs()', 'bishop_dirs()') for e in RK['ensures']]; BK['loops'] = {0: ob, 1: ib}; BK['expect'] = {'loops': ['for', 'while'], 'contains': ['&[(1, -1), (1, 1), (-1, 1), (-1, -1)]']}
     g.add(SPEC_K, SPEC_SL)
     g.add('impl Square {',
-          g.fn('board', 'is_empty_or_color', {'ret': 'res', 'ensures': ['res == (match self { Square::Full(p) => p.color == color, Square::Empty => true, _ => false })']}, impl='Square', qual='Square::is_empty_or_color', props=P),
-          g.fn('board', 'is_color', {'ret': 'res', 'ensures': ['res == (match self { Square::Full(p) => p.color == color, _ => false })']}, impl='Square', qual='Square::is_color', props=P),
+          g.fn('board', 'is_empty_or_color', {'ret': 'res', 'ensures': ['res == (match self { Square::Full(p) => p.color == color, Square::Empty => true, _ => false })']}, impl='Square', qual='Square::is_empty_or_color', props=P, own=OWN),
+          g.fn('board', 'is_color', {'ret': 'res', 'ensures': ['res == (match self { Square::Full(p) => p.color == color, _ => false })']}, impl='Square', qual='Square::is_color', props=P, own=OWN),
           '}')
-    g.add(g.fn('move_generation', 'knight_moves', KN, props=P))
-    g.add(g.fn('move_generation', 'rook_moves', RK, props=P))
-    g.add(g.fn('move_generation', 'bishop_moves', BK, props=P))
-    g.add(g.fn('move_generation', 'pawn_moves', pawn_ann(), props=P))
-    g.add(g.fn('move_generation', 'king_moves', king_ann(), props=P))
+    g.add(g.fn('move_generation', 'knight_moves', KN, props=P, own=OWN))
+    g.add(g.fn('move_generation', 'rook_moves', RK, props=P, own=OWN))
+    g.add(g.fn('move_generation', 'bishop_moves', BK, props=P, own=OWN))
+    g.add(g.fn('move_generation', 'pawn_moves', pawn_ann(), props=P, own=OWN))
+    g.add(g.fn('move_generation', 'king_moves', king_ann(), props=P, own=OWN))
     g.add(SPEC_L1, SPEC_L2, SPEC_Q)
-    g.add(g.fn('move_generation', 'queen_moves', QUEEN, props=P))
-    g.add(g.fn('move_generation', 'get_moves', GET_MOVES, props=P))
+    g.add(g.fn('move_generation', 'queen_moves', QUEEN, props=P, own=OWN))
+    g.add(g.fn('move_generation', 'get_moves', GET_MOVES, props=P, own=OWN))
